@@ -90,7 +90,8 @@ def build_engine(ctx):
     return common.build_full(ctx, "h_engine", ["engine.cpp"])
 
 
-def run(ctx, prop, props_module, props_file, case_gens, trusted, assume, rule, extra_cov=None, exhaustive=None, line_monitor=None):
+def run(ctx, prop, props_module, props_file, case_gens, trusted, assume, rule, extra_cov=None, exhaustive=None, line_monitor=None,
+        extra_engine=None):
     """case_gens: list of (name, count_quick, count_thorough, fn(rng) -> lines)"""
     common.proof_side(ctx, props_module, props_file)
     if ctx.tier == "thorough":
@@ -100,6 +101,8 @@ def run(ctx, prop, props_module, props_file, case_gens, trusted, assume, rule, e
     d.line_monitor = line_monitor
     bad = d.run_batch(corpus_cases(ctx.prop_id))
     engine_regressions(ctx, exe, ctx.prop_id)
+    if extra_engine:
+        extra_engine(ctx, exe)       # engine-only scenario family of the property (own obligation)
     quick = ctx.tier == "quick"
     for name, nq, nt, fn in case_gens:
         rng = ctx.rng(name)
